@@ -354,6 +354,36 @@ def r7_nullable_owners(chk, prog, rule='R7'):
     return total
 
 
+def r8_stream_loops_terminate(chk, prog, rule='R8'):
+    """evaluation terminates for every argument source: a loop that is driven by a read from an input stream ends at
+    the first read that fails - at the end of the file AND when the stream goes bad (unreadable file, a directory
+    given as argument file: eofbit is never set then).  The loop condition must be the success of the read
+    (stream in a boolean context, !fail(), good()); '!eof()' or a disjunction that continues after a failed read
+    is an endless loop for some input"""
+    from ..rules import stream_read_in, stream_loop_condition, loops_in
+    n = 0
+    for f in prog.functions:
+        if f.body is None or '/src/' not in f.file or '/test' in f.file:
+            continue
+        if not (f.name.startswith('celma::prog_args') or f.name.startswith('celma::appl')):
+            continue
+        for loop in loops_in(f):
+            kids = loop.get('c', [])
+            cond = kids[-2] if loop.get('k') == 'WhileStmt' else kids[1] if loop.get('k') == 'DoStmt' else \
+                (kids[2] if loop.get('k') == 'ForStmt' and len(kids) > 2 else None)
+            if not isinstance(cond, dict) or stream_read_in(cond) is None:
+                continue
+            n += 1
+            v = stream_loop_condition(cond)
+            chk.check(v in ('success', 'good'), rule, f.name, 'a loop driven by a stream read ends at the first failed '
+                      'read (end of file or error)', f.loc(loop),
+                      {'eof': "the condition tests only eof(): when the stream fails without reaching the end "
+                              "(unreadable file, a directory as argument file) the loop never ends",
+                       'other': 'the condition can be true after a failed read: the loop does not end'}.get(v, ''))
+    chk.require(n >= 1, 'loops driven by a stream read in the argument handling code: %d' % n)
+    return n
+
+
 def run(chk):
     drv = os.path.join(VERIF, 'drivers', 'prog_args_dest.cpp')
     units = units_matching('library/prog_args/', 'library/appl/arg_string_2_array.cpp', 'library/common/') + [drv]
@@ -390,6 +420,8 @@ def run(chk):
     r5_fixed_size(chk, prog, eng)
     chk.rule('R7', 'possibly empty owning pointers are dereferenced only after a null test', 5)
     r7_nullable_owners(chk, prog)
+    chk.rule('R8', 'loops driven by a stream read end at the first failed read (termination for every argument file)', 1)
+    r8_stream_loops_terminate(chk, prog)
     chk.rule('R6', 'ArgListIterator: the cursor invariant (four cases) is established and preserved; every argv[ i] '
              'and word[ j] access is inside', 40)
     from . import c04_cursor
